@@ -483,7 +483,7 @@ class PteraTransformer(NodeTransformer):
                 orig=target,
             )
 
-        elif isinstance(target, ast.Tuple):
+        elif isinstance(target, (ast.Tuple, ast.List)):
             stmts = []
             for entry in target.elts:
                 stmts.extend(self.generate_interactions(entry))
@@ -696,7 +696,7 @@ class PteraTransformer(NodeTransformer):
         if len(targets) > 1:
             return _decompose(targets, lambda value, i: value)
 
-        elif isinstance(targets[0], ast.Tuple):
+        elif isinstance(targets[0], (ast.Tuple, ast.List)):
             return _decompose(
                 targets[0].elts,
                 lambda value, i: ast.Subscript(
